@@ -303,6 +303,110 @@ func partText(tier, goose, work string, acc *ev.Acc, only *Text) {
 	acc.Sample(map[string]any{"part": "text", "positions": positions, "alphabet": tokens, "max_tokens": maxLen, "example": items[len(items)/2].p}, 2)
 }
 
+// ---------------------------------------------------------------- identifiers
+
+// Go identifiers that are reserved words or notation keywords on the Coq side, at every place an identifier is declared.
+var coqWords = []string{"in", "then", "fun", "match", "end", "with", "let", "fix", "forall", "exists", "as", "at", "using", "where", "mod", "Type", "Prop", "Set",
+	"rec", "val", "expr", "Definition", "Section", "Fork", "Skip", "Panic", "ref", "slice", "lock", "not", "neutral"}
+
+func identSource(pos, n string) string {
+	switch pos {
+	case "funcname":
+		return "package q\n\nfunc " + n + "(x uint64) uint64 {\n\treturn x + 1\n}\n\nfunc G() uint64 {\n\treturn " + n + "(2)\n}\n"
+	case "typename":
+		return "package q\n\ntype " + n + " struct {\n\tv uint64\n}\n\nfunc G() uint64 {\n\tt := " + n + "{v: 1}\n\treturn t.v\n}\n"
+	case "constname":
+		return "package q\n\nconst " + n + " uint64 = 3\n\nfunc G() uint64 {\n\treturn " + n + " + 1\n}\n"
+	case "globalname":
+		return "package q\n\nvar " + n + " uint64 = 3\n\nfunc G() uint64 {\n\treturn " + n + " + 1\n}\n"
+	case "methodname":
+		return "package q\n\ntype T struct {\n\tv uint64\n}\n\nfunc (t T) " + n + "(k uint64) uint64 {\n\treturn t.v + k\n}\n\nfunc G() uint64 {\n\tt := T{v: 1}\n\treturn t." + n + "(2)\n}\n"
+	case "fieldname":
+		return "package q\n\ntype T struct {\n\t" + n + " uint64\n}\n\nfunc G() uint64 {\n\tt := T{" + n + ": 1}\n\treturn t." + n + "\n}\n"
+	case "param":
+		return "package q\n\nfunc F(" + n + " uint64) uint64 {\n\treturn " + n + " + 1\n}\n\nfunc G() uint64 {\n\treturn F(2)\n}\n"
+	case "local":
+		return "package q\n\nfunc G(x uint64) uint64 {\n\t" + n + " := x + 1\n\treturn " + n + " * 2\n}\n"
+	case "localvar":
+		return "package q\n\nfunc G(x uint64) uint64 {\n\tvar " + n + " uint64 = x\n\t" + n + " = " + n + " + 1\n\treturn " + n + "\n}\n"
+	}
+	return ""
+}
+
+func partIdents(goose, work string, acc *ev.Acc) {
+	mod := filepath.Join(work, "modi")
+	writeFile(mod, "go.mod", "module c05ids\n\ngo 1.22\n")
+	positions := []string{"funcname", "typename", "constname", "globalname", "methodname", "fieldname", "param", "local", "localvar"}
+	type item struct{ pos, name, pkg string }
+	var items []item
+	id := 0
+	for _, pos := range positions {
+		for _, n := range coqWords {
+			id++
+			pkg := fmt.Sprintf("i%04d", id)
+			writeFile(mod, pkg+"/a.go", identSource(pos, n))
+			items = append(items, item{pos, n, pkg})
+		}
+	}
+	if out, err := func() ([]byte, error) {
+		c := exec.Command("go", "vet", "./...")
+		c.Dir = mod
+		return c.CombinedOutput()
+	}(); err != nil && strings.Contains(string(out), "syntax error") {
+		fmt.Fprintln(os.Stderr, "harness error: generated identifier packages are not valid Go:", string(out)[:min(len(out), 800)])
+		os.Exit(3)
+	}
+	outDir := filepath.Join(work, "outi")
+	args := []string{"-out", outDir}
+	for _, it := range items {
+		args = append(args, "./"+it.pkg)
+	}
+	if code, out := runGoose(goose, mod, args...); code != 0 && code != 1 {
+		acc.Violate(ev.Violation{Key: "C05/ident/goose-crash", Msg: "goose exited with status " + fmt.Sprint(code) + ": " + out[:min(len(out), 600)]})
+	}
+	neutralOrder := map[string]string{}
+	for pass := 0; pass < 2; pass++ {
+		for _, it := range items {
+			if (it.name == "neutral") != (pass == 0) {
+				continue
+			}
+			b, err := os.ReadFile(filepath.Join(outDir, "c05ids", it.pkg+".v"))
+			if pass == 0 {
+				if err != nil {
+					fmt.Fprintln(os.Stderr, "harness error: neutral identifier package not translated:", it.pos)
+					os.Exit(3)
+				}
+				f, _ := gl.ParseFile(string(b))
+				neutralOrder[it.pos] = strings.Join(f.Order, " ")
+				continue
+			}
+			acc.Add("evaluations", 1)
+			acc.Add("identifier_packages", 1)
+			acc.Set("nontrivial", "ident:"+it.pos+"/"+it.name)
+			if err != nil {
+				acc.Add("identifier_packages_rejected", 1)
+				continue // rejected: acceptable
+			}
+			viol := func(kind, msg string) {
+				acc.Violate(ev.Violation{Key: fmt.Sprintf("C05/ident/%s/%s/%s", it.pos, kind, it.name), Msg: fmt.Sprintf("Go identifier %q as a %s: %s\n--- Go source ---\n%s--- emitted ---\n%s", it.name, it.pos, msg, identSource(it.pos, it.name), string(b)), Replay: map[string]any{"part": "ident"}})
+			}
+			f, perr := gl.ParseFile(string(b))
+			if perr != nil {
+				viol("parse", "the emitted file is not well-formed: "+perr.Error())
+				continue
+			}
+			if len(f.Bad) > 0 {
+				viol("parse", "a sentence of the emitted file does not parse: "+f.Bad[0].Err)
+				continue
+			}
+			want := strings.ReplaceAll(neutralOrder[it.pos], "neutral", it.name)
+			if got := strings.Join(f.Order, " "); got != want {
+				viol("definitions", fmt.Sprintf("definitions %q, with a harmless name %q", got, want))
+			}
+		}
+	}
+}
+
 // ---------------------------------------------------------------- flags
 
 const flagFixture = `package q
@@ -446,6 +550,8 @@ func main() {
 			partText("quick", *goose, work, acc, &rf.Replay.Text)
 		case rf.Replay.Part == "flags":
 			partFlags(*goose, work, acc)
+		case rf.Replay.Part == "ident":
+			partIdents(*goose, work, acc)
 		default:
 			diffexec.Run(diffexec.Cfg{Prop: "C05", Tier: "thorough", Goose: *goose, Work: work, Only: rf.Replay.Descriptor, Verbose: true, Bridge: *bridge, Exclude: map[string]string{}}, acc)
 		}
@@ -460,11 +566,12 @@ func main() {
 	}
 	partText(*tier, *goose, work, acc, nil)
 	partFlags(*goose, work, acc)
+	partIdents(*goose, work, acc)
 	diffexec.Run(diffexec.Cfg{Prop: "C05", Tier: *tier, Goose: *goose, Work: filepath.Join(work, "nest"), Bridge: *bridge, Exclude: map[string]string{}}, acc)
 	os.RemoveAll(work)
 	os.Exit(acc.Done(ev.Finish{
 		Prop: "C05", Tier: *tier, Level: "exploration", Start: start,
-		Rule:        "(a) every string of <=2 (thorough <=3) tokens over {(*, *), (, *, ), \", newline, space, x, é} plus %, %d, %s, %!, tab, backslash, ', CR alone, doubled and next to \", (*, x, space at 24 text positions (a string literal in a one-line if-branch and as a call argument, a log call as the last statement of an if-branch / else-branch / range body / goroutine / closure / whole function, package / function / struct / constant doc comments, trailing constant comment, interpreted and raw string literals, string constants, a concatenation operand, panic message as a literal / a named constant / a constant concatenation, log.Printf with interpreted, raw and constant strings, fmt.Println), one package each, translated by the real goose; the file must lex under Coq's rules (nested comments, strings inside comments), Coq must see the same sentence list as with neutral text, and every body must equal the neutral body up to the literal itself (a rejected package is acceptable). (b) every parent/child/side nesting of the 10 arithmetic, 6 comparison and 2 boolean operators plus unary, call-argument, index, deref, field, conversion, store, condition, struct-literal, slice-bound, tuple and append contexts (thorough: + depth 3 over 5 non-associative operators), at two statement positions, read with Coq's precedences and interpreted: the value must equal Go's on 28 input vectors. (c) a fixture with an interface conversion, comments and constants needed at three call sites, comments and constants under all 8 flag combinations: the same list of definitions (names, order, multiplicity) with identical bodies",
+		Rule:        "(a) every string of <=2 (thorough <=3) tokens over {(*, *), (, *, ), \", newline, space, x, é} plus %, %d, %s, %!, tab, backslash, ', CR alone, doubled and next to \", (*, x, space at 24 text positions (a string literal in a one-line if-branch and as a call argument, a log call as the last statement of an if-branch / else-branch / range body / goroutine / closure / whole function, package / function / struct / constant doc comments, trailing constant comment, interpreted and raw string literals, string constants, a concatenation operand, panic message as a literal / a named constant / a constant concatenation, log.Printf with interpreted, raw and constant strings, fmt.Println), one package each, translated by the real goose; the file must lex under Coq's rules (nested comments, strings inside comments), Coq must see the same sentence list as with neutral text, and every body must equal the neutral body up to the literal itself (a rejected package is acceptable). (b) every parent/child/side nesting of the 10 arithmetic, 6 comparison and 2 boolean operators plus unary, call-argument, index, deref, field, conversion, store, condition, struct-literal, slice-bound, tuple and append contexts (thorough: + depth 3 over 5 non-associative operators), at two statement positions, read with Coq's precedences and interpreted: the value must equal Go's on 28 input vectors. (d) 30 Go identifiers that are Gallina reserved words or GooseLang notation / prelude names (in, then, fun, match, end, let, fix, forall, Type, rec, val, expr, Definition, Fork ...) at nine declaration positions (function, type, constant, global, method, field, parameter, := local, var local): rejected, or the file parses and defines what it defines with a harmless name. (c) a fixture with an interface conversion, comments and constants needed at three call sites, comments and constants under all 8 flag combinations: the same list of definitions (names, order, multiplicity) with identical bodies",
 		Assumptions: []string{"Coq's lexer and the levels of the GooseLang notations are modelled by mc/gl (standard levels for * + = < && || ~, level 35 for the backquoted infixes and shifts)", "nesting is judged by value on boundary inputs, not by tree isomorphism with the translator's internal tree"},
 		Extra:       map[string]any{"distinct_nontrivial": len(acc.Sets["nontrivial"])},
 	}))
